@@ -163,6 +163,109 @@ def expand(fn: ast.FunctionDef, call: ast.Call, is_method: bool, make):
     return pre + out
 
 
+def _stage(tree, fn, call, is_method: bool, k: int):
+    """how the call `call` (somewhere in `tree`) is replaced by the body of fn: (statement list, statement, new statements, (call, value) or None)"""
+    site = _find_site(tree, call)
+    if site is None:
+        return None
+    lst, i, st, direct = site
+    if direct and isinstance(st, ast.Expr):
+        make = lambda r: (ast.copy_location(ast.Expr(value=r.value), r) if r.value is not None and not isinstance(r.value, (ast.Constant, ast.Name)) else None)
+    elif direct and isinstance(st, ast.Assign):
+        tg = st.targets
+        def make(r, tg=tg):
+            v = r.value if r.value is not None else ast.Constant(value=None)
+            if len(tg) == 1 and isinstance(tg[0], ast.Name) and isinstance(v, ast.Name) and tg[0].id == v.id:
+                return None
+            return ast.copy_location(ast.Assign(targets=copy.deepcopy(tg), value=v), r)
+    elif direct and isinstance(st, ast.Return):
+        make = lambda r: ast.copy_location(ast.Return(value=r.value), r)
+    else:
+        make = None
+    if make is not None:
+        new = expand(fn, call, is_method, make)
+        if new is None:
+            return None
+        return (lst, st, new, None)
+    # the call is an operand inside the statement: the body goes in front of the statement and the returned value takes the call's place
+    holder = {}
+    def make_h(r, holder=holder):
+        holder["v"] = r.value
+        return None
+    new = expand(fn, call, is_method, make_h)
+    body0 = [s_ for s_ in fn.body if not (isinstance(s_, ast.Expr) and isinstance(s_.value, ast.Constant))]
+    if new is None or "v" not in holder or holder["v"] is None or len(_returns(body0)) != 1 or not isinstance(body0[-1], ast.Return):
+        # several returns, all in tail position (`if c: return A` / `return B`): the value goes through a fresh local that is assigned on
+        # every path in front of the statement and takes the call's place in it
+        tmp = f"_inl_{fn.name.strip('_')}_{k}"
+        def make_t(r, tmp=tmp):
+            v = r.value if r.value is not None else ast.Constant(value=None)
+            return ast.copy_location(ast.Assign(targets=[ast.Name(id=tmp, ctx=ast.Store())], value=v), r)
+        new = expand(fn, call, is_method, make_t)
+        if new is None or not _always_returns(body0):
+            return None
+        return (lst, st, new + [st], (call, ast.Name(id=tmp, ctx=ast.Load())))
+    return (lst, st, new + [st], (call, holder["v"]))
+
+
+def _apply(staged):
+    for lst, st, new, repl in staged:
+        if repl is not None:
+            _replace_node(st, repl[0], repl[1])
+        for s_ in new:
+            ast.fix_missing_locations(s_)
+        k = next(i_ for i_, x in enumerate(lst) if x is st)
+        lst[k:k + 1] = new
+
+
+def undo_pulled_up_methods(modules: Dict[str, ast.Module], known_quals: set, log: List[str]):
+    """"Pull up method": a block that several subclasses (in other modules) had each for themselves now lives once in a method of a common
+    base class and is called as self.<m>(..).  A method the reference does not know, whose name is defined exactly once in the package and
+    is only ever used in calls on `self`, with at least one call outside its own module, is put back at every call site."""
+    defs: Dict[str, list] = {}
+    for mname, tree in modules.items():
+        for st in tree.body:
+            if isinstance(st, (ast.FunctionDef, ast.AsyncFunctionDef)):
+                defs.setdefault(st.name, []).append(None)
+            elif isinstance(st, ast.ClassDef):
+                for s2 in st.body:
+                    if isinstance(s2, (ast.FunctionDef, ast.AsyncFunctionDef)):
+                        defs.setdefault(s2.name, []).append((mname, st, s2))
+    for name, lst in sorted(defs.items()):
+        if len(lst) != 1 or lst[0] is None:
+            continue
+        mname, cls, fn = lst[0]
+        if f"{mname}.{cls.name}.{name}" in known_quals or (name.startswith("__") and name.endswith("__")):
+            continue
+        if not isinstance(fn, ast.FunctionDef) or not inlinable(fn) or _is_static(fn):
+            continue
+        refs, calls = 0, []
+        for m2, t2 in modules.items():
+            for n in ast.walk(t2):
+                if (isinstance(n, ast.Name) and n.id == name) or (isinstance(n, ast.Attribute) and n.attr == name):
+                    refs += 1
+                if isinstance(n, ast.Call) and isinstance(n.func, ast.Attribute) and n.func.attr == name and isinstance(n.func.value, ast.Name) and n.func.value.id == "self":
+                    calls.append((m2, t2, n))
+        if not calls or refs != len(calls) or len(calls) > 8 or all(m2 == mname for m2, _, _ in calls):
+            continue
+        if any(c is x for _, _, c in calls for x in ast.walk(fn)):
+            continue
+        staged = []
+        for m2, t2, c in calls:
+            one = _stage(t2, fn, c, True, len(staged))
+            if one is None:
+                staged = None
+                break
+            staged.append(one)
+        if not staged:
+            continue
+        _apply(staged)
+        cls.body.remove(fn)
+        if not cls.body:
+            cls.body.append(ast.Pass())
+        log.append(f"{mname}.{cls.name}.{name} (pulled-up method) put back at its {len(calls)} call site(s)")
+
+
 def undo_extractions(modules: Dict[str, ast.Module], known_quals: set, log: List[str]):
     """modules: module name -> tree.  known_quals: qualified names of the reference tree's functions."""
     for mname, tree in modules.items():
@@ -194,44 +297,11 @@ def undo_extractions(modules: Dict[str, ast.Module], known_quals: set, log: List
                 staged = []
                 ok = True
                 for call in calls:
-                    site = _find_site(tree, call)
-                    if site is None:
+                    one = _stage(tree, fn, call, cname is not None, len(staged))
+                    if one is None:
                         ok = False
                         break
-                    lst, i, st, direct = site
-                    if direct and isinstance(st, ast.Expr):
-                        make = lambda r: (ast.copy_location(ast.Expr(value=r.value), r) if r.value is not None and not isinstance(r.value, (ast.Constant, ast.Name)) else None)
-                    elif direct and isinstance(st, ast.Assign):
-                        tg = st.targets
-                        def make(r, tg=tg):
-                            v = r.value if r.value is not None else ast.Constant(value=None)
-                            if len(tg) == 1 and isinstance(tg[0], ast.Name) and isinstance(v, ast.Name) and tg[0].id == v.id:
-                                return None
-                            return ast.copy_location(ast.Assign(targets=copy.deepcopy(tg), value=v), r)
-                    elif direct and isinstance(st, ast.Return):
-                        make = lambda r: ast.copy_location(ast.Return(value=r.value), r)
-                    else:
-                        make = None
-                    if make is not None:
-                        new = expand(fn, call, cname is not None, make)
-                        if new is None:
-                            ok = False
-                            break
-                    else:
-                        # the call is an operand inside the statement: only for a body with one trailing return - the body goes in front of
-                        # the statement and the returned value takes the call's place
-                        holder = {}
-                        def make(r, holder=holder):
-                            holder["v"] = r.value
-                            return None
-                        new = expand(fn, call, cname is not None, make)
-                        body0 = [s_ for s_ in fn.body if not (isinstance(s_, ast.Expr) and isinstance(s_.value, ast.Constant))]
-                        if new is None or "v" not in holder or holder["v"] is None or len(_returns(body0)) != 1 or not isinstance(body0[-1], ast.Return):
-                            ok = False
-                            break
-                        staged.append((lst, st, new + [st], (call, holder["v"])))
-                        continue
-                    staged.append((lst, st, new, None))
+                    staged.append(one)
                 if not ok or not staged:
                     continue
                 for lst, st, new, repl in staged:
